@@ -155,6 +155,7 @@ class StackedLift:
             names = tuple(frame_ds.names)
             periods = tuple(frame_ds.periods)
             obj = np.empty(data.shape, dtype=object)
+            ida0 = kw.get("input_data_array")
             for i, nm in enumerate(names):
                 for j in range(data.shape[1]):
                     x = float(data[i, j])
@@ -169,27 +170,42 @@ class StackedLift:
                         obj[i, j] = outer.known[(nm, k)]
                         continue
                     sname = nm if nm in outer.param_rows else f"{nm}__{lab(k)}"
+                    # a frame cell whose number differs from the user's input (the initial-guess simulation overwrote it) is NOT the
+                    # input cell: it gets its own symbol, so that reading the frame instead of the input data is visible
+                    if ida0 is not None and nm not in outer.param_rows:
+                        xin = float(ida0[i, j])
+                        if not math.isnan(xin) and xin != x:
+                            sname = f"guess_{nm}__{lab(k)}"
                     if sname not in outer.syms:
                         sv = x if outer.values is None else outer.values.get(sname, x)
                         outer.syms[sname] = S.sym(sname, sv)
                     obj[i, j] = outer.syms[sname]
-                    outer.inputs.setdefault((nm, k), obj[i, j])
+                    if not sname.startswith("guess_"):
+                        outer.inputs.setdefault((nm, k), obj[i, j])
             var.data = obj
-            ida = kw.get("input_data_array")
-            if ida is not None:
-                iobj = np.array(ida, dtype=object)
+            iobj = None
+            if ida0 is not None:
+                iobj = np.array(ida0, dtype=object)
                 for i, nm in enumerate(names):
                     for j in range(iobj.shape[1]):
                         k = periods[j] - outer.start
-                        if (nm, k) in outer.inputs:
-                            iobj[i, j] = outer.inputs[(nm, k)]
+                        xin = float(ida0[i, j])
+                        if math.isnan(xin) or nm not in outer.lift_rows or nm in outer.param_rows or (xin == 0.0 and nm in outer.shock_rows) \
+                                or (outer.symbolic_cells is not None and not outer.symbolic_cells(nm, k)):
+                            continue
+                        if (nm, k) not in outer.inputs:
+                            sname = f"{nm}__{lab(k)}"
+                            if sname not in outer.syms:
+                                outer.syms[sname] = S.sym(sname, xin if outer.values is None else outer.values.get(sname, xin))
+                            outer.inputs[(nm, k)] = outer.syms[sname]
+                        iobj[i, j] = outer.inputs[(nm, k)]
                 kw["input_data_array"] = iobj
             inp = obj.copy()
             try:
                 r = real_frame(model_v, frame_ds, **kw)
                 out = np.array(var.data, dtype=object)
                 frame = kw["frame"]
-                outer.frames.append(dict(names=names, periods=periods, inp=inp, out=out, frame=frame,
+                outer.frames.append(dict(names=names, periods=periods, inp=inp, out=out, frame=frame, ida=iobj,
                                          columns=tuple(range(frame.first, frame.simulation_last + 1))))
                 for i, nm in enumerate(names):
                     for j in range(out.shape[1]):
@@ -211,7 +227,7 @@ class StackedLift:
         return False
 
 
-def _run(ir, nm, m, method, terminal, nsim, unant, ant, exact=False, values=None, lift_params=True):
+def _run(ir, nm, m, method, terminal, nsim, unant, ant, exact=False, values=None, lift_params=True, plan_spec=None):
     start = ir.qq(2020, 1)
     span = start >> (start + nsim - 1)
     db = make_db(ir, nm, m, start, nsim, values=values, unant_periods=unant, ant_periods=ant, terminal_data=(terminal == "data"))
@@ -226,16 +242,45 @@ def _run(ir, nm, m, method, terminal, nsim, unant, ant, exact=False, values=None
     kw = dict(method=method)
     if method == "stacked_time":
         kw["terminal"] = terminal
+    if plan_spec is not None:
+        kw["plan"] = apply_plan(ir, nm, m, db, span, start, plan_spec, values)
     with StackedLift(ir, start, lift_rows, nm.params, exact=exact, values=values, symbolic_cells=cells, shock_rows=nm.shocks) as L, S.Path() as path, contextlib.redirect_stdout(io.StringIO()):
         m.simulate(db, span, **kw)
     return L, path, db, span
 
 
-def check_equations(run, ir, nm, m, method, terminal, nsim, unant, ant):
+def apply_plan(ir, nm, m, db, span, start, plan_spec, values=None):
+    """plan_spec = dict(mode='a'|'u', targets=[(variable, k)], instruments=[(shock, k)]); target values are written into the databox"""
+    lv = {k: float(v) for k, v in m.get_steady_levels().items() if isinstance(v, (int, float, np.floating))}
+    plan = ir.SimulationPlan(m, span)
+    for (v, k) in plan_spec["targets"]:
+        (plan.exogenize_anticipated if plan_spec["mode"] == "a" else plan.exogenize_unanticipated)(start + k, v)
+        x = db[v].copy()
+        tv = (lv[v] if lv[v] else 1.0) * (1.03 + 0.01 * k) - (0.0 if lv[v] else 0.8)
+        if values is not None and f"{v}__{lab(k)}" in values:
+            tv = float(values[f"{v}__{lab(k)}"])
+        x[start + k] = tv
+        db[v] = x
+    for (e, k) in plan_spec["instruments"]:
+        if plan_spec["mode"] == "a":
+            plan.endogenize_anticipated(start + k, "ant_" + e)
+        else:
+            plan.endogenize_unanticipated(start + k, e)
+    return plan
+
+
+def check_equations(run, ir, nm, m, method, terminal, nsim, unant, ant, plan_spec=None):
     key = f"equations:{nm.name}:{method}:terminal={terminal}:nsim={nsim}:unant={unant}:ant={ant}"
     case = dict(kind="equations", model=nm.name, method=method, terminal=terminal, nsim=nsim, unant=list(unant), ant=list(ant))
     finding = f"stacked:{nm.name}:{method}"
-    L, path, db, span = _run(ir, nm, m, method, terminal, nsim, unant, ant)
+    exo_cells, endo_cells = set(), set()
+    if plan_spec is not None:
+        key = f"plan:{nm.name}:{method}:terminal={terminal}:nsim={nsim}:unant={unant}:{plan_spec['mode']}:{plan_spec['targets']}<-{plan_spec['instruments']}"
+        case["plan"] = plan_spec
+        finding = f"stacked:plan:{nm.name}:{plan_spec['mode']}"
+        exo_cells = {(v, k) for v, k in plan_spec["targets"]}
+        endo_cells = {(("ant_" + e) if plan_spec["mode"] == "a" else e, k) for e, k in plan_spec["instruments"]}
+    L, path, db, span = _run(ir, nm, m, method, terminal, nsim, unant, ant, plan_spec=plan_spec)
     if not L.frames or not L.assume:
         run.unknown(key, "the solver stub was never called")
         return
@@ -258,11 +303,21 @@ def check_equations(run, ir, nm, m, method, terminal, nsim, unant, ant):
                 rt = S.const(r).t
                 claims.append((f"eq{ei}@{fr['periods'][j]}", rt))
                 terms.append(rt)
-        # (ii) untouched cells: everything that is not a transition variable in a simulated column (or a terminal column) is the identical object
+        # (ii) untouched cells: everything that is not a transition variable in a simulated column (or a terminal column) is the identical object;
+        #      with a plan: exogenized variable cells ARE untouched (equal to the input), endogenized shock cells may change
         tv = {row[n] for n in nm.tvars}
         last = fr["columns"][-1]
+        k_of = lambda j: fr["periods"][j] - span.start
         for i in range(out.shape[0]):
             for j in range(out.shape[1]):
+                if (names[i], k_of(j)) in endo_cells:
+                    continue
+                if (names[i], k_of(j)) in exo_cells and j in fr["columns"]:
+                    # exogenized: the cell must hold the user's INPUT value (input data array), not whatever the frame held before
+                    a, b = out[i, j], (fr["ida"][i, j] if fr.get("ida") is not None else inp[i, j])
+                    if not ((a is b) or (isinstance(a, S.SReal) and isinstance(b, S.SReal) and a.t.eq(b.t))):
+                        untouched_bad.append(f"exogenized {names[i]}[{j}] holds {str(a)[:40]} instead of the input {str(b)[:40]}")
+                    continue
                 if i in tv and (j in fr["columns"] or j > last):
                     continue
                 a, b = out[i, j], inp[i, j]
@@ -363,7 +418,7 @@ def main(run):
                               "(get_init_guess, update, eval_func, _create_update_map)", "stacked_time._equators.Equator / equators.plain.PlainEquator", "fords.terminators.Terminator.{__init__,"
                               "terminate_simulation}", "period_by_period.simulators.{create_frames,simulate_frame}", "frames.{split_into_frames,prune_frame_data,write_frame_data_to_main_dataslate}",
                               "reached through Simultaneous.simulate(method='stacked_time'|'period_by_period')"]
-    run.bounds["structures"] = ("models: rbc (log-variables, real exponents, leads), nl_backward (rational nonlinearity), lin_forward, lin_backward; span 3 periods (thorough: also 4); unanticipated shocks in "
+    run.bounds["structures"] = ("stacked-time simulation plans: <=2 anticipated or start-dated unanticipated targets/instruments per model; models: rbc (log-variables, real exponents, leads), nl_backward (rational nonlinearity), lin_forward, lin_backward; span 3 periods (thorough: also 4); unanticipated shocks in "
                                 "period 0 (and a later period: two chained frames), anticipated shocks in one or two periods; terminal in {first_order, data}; methods stacked_time and "
                                 "period_by_period (backward-looking models)")
     run.bounds["values"] = "every initial condition, shock, anticipated twin and parameter a real symbol (log-variables positive); (iii): inputs in the unit box, parameters concrete, tolerance 1e-8"
@@ -372,7 +427,7 @@ def main(run):
     run.assumptions += ["cells are mathematical reals", "exp/log of numeric constants evaluated in floats, hence |residual| < 2*tolerance", "frames are chained symbolically: a cell computed "
                         "by an earlier frame enters later frames as that term"]
     run.outside += ["convergence of the Newton iteration", "the stacked-time Jacobian and terminal Jacobian (scipy sparse rejects object data)", "initial_guess (affects only the iteration)",
-                    "plans with method='stacked_time'", "measurement variables (the simulator leaves them to the caller)"]
+                    "measurement variables (the simulator leaves them to the caller)"]
     quick = run.tier == "quick"
     built = {}
     for nm in models():
@@ -391,6 +446,25 @@ def main(run):
                     run.unknown(f"equations:{nm.name}:stacked_time:{terminal}:{unant}", exc)
                 except Exception as exc:
                     run.error(f"equations:{nm.name}:stacked_time:{terminal}:{unant}", exc)
+        # simulation plans under stacked time (C07's stacked_time conjunct): exogenized cells stay the input, only endogenized shocks change,
+        # the source equations hold on the returned array
+        V, E = list(nm.tvars), list(nm.shocks)
+        plans = [dict(mode="a", targets=[(V[0], 1)], instruments=[(E[0], 0)]), dict(mode="u", targets=[(V[0], 0)], instruments=[(E[0], 0)])]
+        if len(E) > 1:
+            plans.append(dict(mode="a", targets=[(V[0], 2), (V[1], 1)], instruments=[(E[0], 1), (E[1], 0)]))
+        if not quick:
+            plans += [dict(mode="a", targets=[(V[0], 2)], instruments=[(E[0], 2)]), dict(mode="a", targets=[(V[0], 0), (V[0], 2)], instruments=[(E[0], 0), (E[0], 1)])]
+            if len(E) > 1:
+                plans.append(dict(mode="u", targets=[(V[0], 0), (V[1], 0)], instruments=[(E[0], 0), (E[1], 0)]))
+        for spec in plans:
+            if nm.name == "rbc" and (quick or spec["mode"] == "u"):
+                continue
+            try:
+                check_equations(run, ir, nm, m, "stacked_time", "first_order", 3, (0,), (), plan_spec=spec)
+            except S.SymbolicBranchError as exc:
+                run.unknown(f"plan:{nm.name}:{spec}", exc)
+            except Exception as exc:
+                run.error(f"plan:{nm.name}:{spec}", exc)
         if nm.backward:
             try:
                 check_equations(run, ir, nm, m, "period_by_period", "data", 3, (0, 1), ())
@@ -426,6 +500,11 @@ def replay(case):
     kw = dict(method=case["method"])
     if case["method"] == "stacked_time" and case["kind"] == "equations":
         kw["terminal"] = case["terminal"]
+    plan_spec = case.get("plan")
+    if plan_spec:
+        plan_spec = dict(mode=plan_spec["mode"], targets=[tuple(t) for t in plan_spec["targets"]], instruments=[tuple(t) for t in plan_spec["instruments"]])
+        db_in = db.copy()
+        kw["plan"] = apply_plan(ir, nm, m, db, span, start, plan_spec, vals or None)
     try:
         with contextlib.redirect_stdout(io.StringIO()):
             out = m.simulate(db, span, **kw)
@@ -452,6 +531,20 @@ def replay(case):
                     worst, msg = d, f"{n}[{per}]: {g(out, n, per)!r} vs first order {g(fo_out, n, per)!r}"
         return worst > 1e-6, msg
     worst, msg = 0.0, "all equations hold"
+    if plan_spec:
+        for (v, k) in plan_spec["targets"]:
+            d = abs(g(out, v, start + k) - g(db, v, start + k))
+            if d > 1e-9:
+                return True, f"exogenized {v}[{start + k}] = {g(out, v, start + k)!r}, input {g(db, v, start + k)!r}"
+        endo = {(("ant_" + e) if plan_spec["mode"] == "a" else e, k) for e, k in plan_spec["instruments"]}
+        for sname in list(nm.shocks) + ["ant_" + x for x in nm.shocks]:
+            for k in range(nsim):
+                if (sname, k) in endo:
+                    continue
+                a, b = g(out, sname, start + k), g(db, sname, start + k)
+                a, b = (0.0 if math.isnan(a) else a), (0.0 if math.isnan(b) else b)
+                if abs(a - b) > 1e-9:
+                    return True, f"shock {sname}[{start + k}] changed from {b!r} to {a!r} although it is not endogenized"
     last_cols = 1 if case.get("terminal") == "first_order" else 0
     for ti, per in enumerate(span):
         def lookup(name, sh, per=per):
